@@ -373,7 +373,8 @@ pub fn generate(quick: bool) -> Vec<(Vec<u8>, u32, u32, String)> {
             }
         }
         let big = s.len() > 20_000;
-        let max_pos = if quick { if big { 24 } else { 96 } } else if big { 400 } else { 2048 };
+        // quick: streams over 5000 bytes (large images, costly renders) get the small cap as well
+        let max_pos = if quick { if big || s.len() > 5000 { 24 } else { 96 } } else if big { 400 } else { 2048 };
         mutants(s, name, max_pos, &mut out);
     }
     // (c) structured
